@@ -71,6 +71,9 @@ var kinds = []kind{
 	{"sharedCycle", func(l *mon.Log) it { return seq.Start(sharedCycle) }},
 	{"sharedFor", func(l *mon.Log) it { return seq.Start(sharedFor) }},
 	{"sharedNest", func(l *mon.Log) it { return seq.Start(sharedNest) }},
+	{"echoByMoveNext", func(l *mon.Log) it { return seq.Start(echoSeq(l, 500)) }},
+	{"echoBySend", func(l *mon.Log) it { return &sender{g: seq.Start(echoSeq(l, 100)).(seq.Generator[int])} }},
+	{"relayBySend", func(l *mon.Log) it { return &sender{g: seq.Start(relaySeq(l)).(seq.Generator[int])} }},
 	// ONE generic generator at many element types (interfaces first: their zero values are all nil)
 	{"Each[any]", func(l *mon.Log) it {
 		return adapt[any](gens.Each(l, []any{1, "x", 3.5, nil, 5}), func(v any) int { return len(fmt.Sprint(v)) })
@@ -109,6 +112,52 @@ var kinds = []kind{
 	{"Each[string]", func(l *mon.Log) it {
 		return adapt[string](gens.Each(l, []string{"a", "bb", "ccc", "dddd"}), func(x string) int { return len(x) + 300 })
 	}},
+}
+
+// hand-written generators with yield EXPRESSIONS (BindRecv): every yield reports what the previous resume delivered.
+// MoveNext resumes with the zero value, Send(v) with v — whatever other iterators are being sent at the time.
+func echoSeq(l *mon.Log, base int) seq.Seq[int] {
+	var from func(n, carry int) seq.Seq[int]
+	from = func(n, carry int) seq.Seq[int] {
+		if n == 0 {
+			return seq.Normal[int]()
+		}
+		return seq.BindRecv(base+carry, func(r int) seq.Seq[int] {
+			l.E(r)
+			return seq.Delay(func() seq.Seq[int] { return from(n-1, r) })
+		})
+	}
+	return seq.Delay(func() seq.Seq[int] { return from(40, 0) })
+}
+
+// sender drives a generator with Send(k) instead of MoveNext
+type sender struct {
+	g  seq.Generator[int]
+	n  int
+	ok bool
+}
+
+func (a *sender) MoveNext() bool {
+	a.n++
+	_, a.ok = a.g.Send(7000 + a.n)
+	return a.ok
+}
+func (a *sender) Current() int { return a.g.Current() }
+
+// relay: a generator that is driven by Send and, WHILE it is being resumed, advances an inner echo generator with
+// a plain MoveNext and passes on what the inner one yields (the inner one must have received the zero value)
+func relaySeq(l *mon.Log) seq.Seq[int] {
+	return seq.Delay(func() seq.Seq[int] {
+		inner := seq.Start(echoSeq(l, 500))
+		var step func() seq.Seq[int]
+		step = func() seq.Seq[int] {
+			if !inner.MoveNext() {
+				return seq.Normal[int]()
+			}
+			return seq.BindRecv(inner.Current(), func(int) seq.Seq[int] { return seq.Delay(step) })
+		}
+		return step()
+	})
 }
 
 type errN int
@@ -240,6 +289,21 @@ func deterministic(rng *rand.Rand) {
 	solos := map[string][]string{}
 	for _, k := range kinds {
 		solos[k.name] = solo(k, maxM)
+	}
+	// a generator resumed by MoveNext receives the zero value also while ANOTHER generator is being resumed by Send:
+	// the relay (driven by Send) advances an inner echo generator by MoveNext and passes its values on, so apart from
+	// the first element (a generator's first Send only starts it and delivers the SECOND yield) it must deliver what
+	// the echo generator delivers alone
+	{
+		val := func(r string) string { return strings.SplitN(strings.SplitN(r, " fx=", 2)[0], "C=", 2)[1] }
+		relay, echo := solos["relayBySend"], solos["echoByMoveNext"]
+		for i := 0; i+1 < len(echo) && i < len(relay); i++ {
+			res.Eval(1)
+			if val(relay[i]) != val(echo[i+1]) {
+				res.Violate("relay:"+fmt.Sprint(i), "moveNext-received-a-value-sent-to-another-iterator", fmt.Sprintf("a generator driven by Send advances an inner generator by MoveNext: inner values %v, the same generator consumed alone by MoveNext %v", relay, echo), map[string]any{"probe": "schedmon"})
+				break
+			}
+		}
 	}
 	n := 0
 	// k = 2: all pairs (incl. same kind twice) x all interleavings of 4 advances each (70 per pair)
@@ -605,8 +669,69 @@ func parallel(rng *rand.Rand, G, rounds int) {
 	res.DistinctN(len(sigs))
 }
 
+// cold: the goroutines are the FIRST users of the runtime in this process (no solo run, no warm-up before them):
+// lazily initialised process-wide state is then initialised concurrently. Records are compared with solo runs
+// made afterwards.
+func cold(G int) {
+	maxM := 12
+	type out struct {
+		names []string
+		recs  [][]string
+		bad   string
+	}
+	outs := make([]out, G)
+	var wg sync.WaitGroup
+	start := make(chan struct{})
+	for g := 0; g < G; g++ {
+		wg.Add(1)
+		go func(g int) {
+			defer wg.Done()
+			defer func() {
+				if p := recover(); p != nil {
+					outs[g].bad = fmt.Sprintf("goroutine %d panicked while consuming its own iterators: %v", g, p)
+				}
+			}()
+			mine := []kind{kinds[g%len(kinds)], kinds[(g*7+3)%len(kinds)]}
+			<-start
+			for _, k := range mine {
+				l := &mon.Log{}
+				it := k.mk(l)
+				var rec []string
+				for i := 0; i < maxM; i++ {
+					advance(it, l, &rec)
+				}
+				outs[g].names = append(outs[g].names, k.name)
+				outs[g].recs = append(outs[g].recs, rec)
+			}
+		}(g)
+	}
+	close(start)
+	wg.Wait()
+	res.Eval(G)
+	for g, o := range outs {
+		if o.bad != "" {
+			res.Violate(fmt.Sprintf("cold:g%d", g), "parallel-changes-sequence", o.bad, nil)
+			continue
+		}
+		for i, name := range o.names {
+			var k kind
+			for _, kk := range kinds {
+				if kk.name == name {
+					k = kk
+				}
+			}
+			want := solo(k, maxM)
+			if strings.Join(o.recs[i], "|") != strings.Join(want, "|") {
+				res.Violate(fmt.Sprintf("cold:g%d:%s", g, name), "parallel-changes-sequence", fmt.Sprintf("goroutine %d iterator %s (first users of the runtime in the process): alone %v, in parallel %v", g, name, want, o.recs[i]), nil)
+			}
+			res.DistinctN(1)
+		}
+	}
+	res.Count("cold_start_goroutines", G)
+}
+
 func main() {
-	mode := flag.String("mode", "det", "det|par")
+	mode := flag.String("mode", "det", "det|par|cold")
 	plib.Flags()
 	rng := rand.New(rand.NewSource(plib.Seed))
 	switch *mode {
@@ -618,6 +743,8 @@ func main() {
 			G, rounds = 64, 200
 		}
 		parallel(rng, G, rounds)
+	case "cold":
+		cold(16)
 	}
 	res.Write()
 }
